@@ -320,6 +320,37 @@ fn write_edit(from: &Content, to: &Content, abandoned_first: Option<&Content>, v
     zone
 }
 
+/// Two committed write batches: from2 -> from -> to.
+fn write_edit2(from2: &Content, from: &Content, to: &Content) -> Zone {
+    let zone = build_direct(from2, false);
+    let rt = rt();
+    rt.block_on(async {
+        for (a, b) in [(from2, from), (from, to)] {
+            let mut w = zone.write().await;
+            let apex = w.open(false).await.unwrap();
+            let mut names: BTreeSet<RelName> = a.names.keys().cloned().collect();
+            names.extend(b.names.keys().cloned());
+            let changed: Vec<&RelName> = names.iter().filter(|n| a.names.get(*n) != b.names.get(*n)).collect();
+            let dirty: Vec<&RelName> = names
+                .iter()
+                .filter(|n| {
+                    changed.iter().any(|ch| {
+                        let below = n.len() >= ch.len() && n[..ch.len()] == ch[..];
+                        let cut_above = ch.len() > n.len() && ch[..n.len()] == n[..] && (a.is_cut(n) || b.is_cut(n));
+                        below || cut_above
+                    })
+                })
+                .collect();
+            for n in dirty {
+                write_name(apex.as_ref(), b, Some(a), n).await;
+            }
+            drop(apex);
+            w.commit(false).await.unwrap();
+        }
+    });
+    zone
+}
+
 fn neighbours(ks: &[K], quick: bool) -> Vec<Vec<K>> {
     let m = menus(quick);
     let mut v = Vec::new();
@@ -459,6 +490,25 @@ fn main() {
                     ctx.violation(&format!("C08|write-edit|panic|{}", panic_class(&p)), &p, case2());
                 }
             }
+            // thorough: two committed batches Z'' -> Z' -> Z through the write interface
+            if !quick {
+                for n2 in neighbours(&nks, quick) {
+                    if n2 == *ks {
+                        continue;
+                    }
+                    let from2 = content_of(&n2, 0);
+                    let case3 = || json!({"from2": desc(&n2), "from": desc(&nks), "to": desc(ks)});
+                    match guard(|| write_edit2(&from2, &from, &c)) {
+                        Ok(z) => {
+                            tr(1);
+                            check_zone(&ctx, &stats, &z, &c, "write-edit-two-batches", Some(&[&from2, &from]), &case3)
+                        }
+                        Err(p) => {
+                            ctx.violation(&format!("C08|write-edit-two-batches|panic|{}", panic_class(&p)), &p, case3());
+                        }
+                    }
+                }
+            }
             // an abandoned attempt (towards `busy`) first, then the real edit
             if !quick || nks[0] != ks[0] {
                 match guard(|| write_edit(&from, &c, Some(&busy), false)) {
@@ -507,7 +557,7 @@ fn main() {
             "traces_validated_against_impl": t,
             "evaluations": stats.evals(),
             "distinct_nontrivial": stats.distinct_count(),
-            "rule": "states = all zone contents (kind per slot name, consistent with zone rules); transitions = histories executed on the real zone (builder fwd/rev, parsed zonefile, updater full replacement from bare and busy zones, write interface from bare / via remove_all, and for every single-slot neighbour content an updater edit, a write-interface edit and a write-interface edit after an abandoned attempt); evaluations = (qname,qtype) queries + walks compared with the reference resolver",
+            "rule": "states = all zone contents (kind per slot name, consistent with zone rules); transitions = histories executed on the real zone (builder fwd/rev, parsed zonefile, updater full replacement from bare and busy zones, write interface from bare / via remove_all, and for every single-slot neighbour content an updater edit, a write-interface edit and a write-interface edit after an abandoned attempt; thorough: also two committed write batches through every pair of successive single-slot edits); evaluations = (qname,qtype) queries + walks compared with the reference resolver",
             "exhaustive": true,
             "slots": SLOTS,
             "qnames": QNAMES,
